@@ -134,7 +134,7 @@ def gen_quals(rng, n, profile=None, base=33):
     return "".join(chr(base + x) for x in q)
 
 
-HEADER_STYLES = ["plain", "casava", "comment", "lengthtag", "slash"]
+HEADER_STYLES = ["plain", "casava", "comment", "lengthtag", "slash", "gtcomment"]
 
 
 def gen_header(rng, i, which, n, style):
@@ -160,6 +160,9 @@ def gen_header(rng, i, which, n, style):
         return f"{rid} x:Y:"
     if style == "comment":
         return f"{rid} some comment {which}"
+    if style == "gtcomment":
+        # characters that start a record elsewhere ('>' and '@', '+') inside the comment of some reads
+        return f"{rid} var=A>G @x +y {which}" if (i + which) % 3 == 1 else f"{rid} some comment {which}"
     if style == "lengthtag":
         return f"{rid} length={n} extra"
     if style == "slash":
@@ -202,4 +205,20 @@ def gen_reads(rng, n, paired, adapters1, adapters2=None, **feats):
         r1.append(gen_read(rng, i, 1, adapters1, feats))
         if paired:
             r2.append(gen_read(rng, i, 2, adapters2 if adapters2 is not None else adapters1, feats))
+        # consecutive reads that share the sequence or the quality string (state kept from one read to the next,
+        # e.g. a cache keyed by only one of them, must not leak)
+        for lst in (r1, r2):
+            if len(lst) >= 2 and rng.random() < feats.get("repeat_p", 0.06):
+                (n0, s0, q0), (n1, s1, q1) = lst[-2], lst[-1]
+                if rng.random() < 0.5:
+                    q_new = q1 if (q1 is None or len(q1) == len(s0)) else (q1 * (len(s0) // max(1, len(q1)) + 1))[:len(s0)] if q1 else None
+                    if q1 is None or q_new is not None and len(q_new) == len(s0):
+                        lst[-1] = (n1, s0, q_new)
+                elif q0 is not None and len(q0) == len(s1):
+                    lst[-1] = (n1, s1, q0)
+                elif q0 is not None and s1:
+                    # same qualities need the same length: shuffle the previous read's bases instead
+                    sl = list(s0)
+                    rng.shuffle(sl)
+                    lst[-1] = (n1, "".join(sl), q0)
     return r1, r2
